@@ -146,6 +146,17 @@ def programs(tier):
         body2 = [f"#[allow(non_camel_case_types)] type {ty} = u16;", f"const K: &[{ty}] = &konst::iter::collect_const!({ty} => &[1u16, 2, 3], copied(), map(|x: {ty}| x * 2));",
                  f"out.push(({e3_js('collect_const! with a user type alias named ' + ty)}.to_string(), format!(\"{{:?}}\", K), \"[2, 4, 6]\".to_string()));"]
         P.append((f"collect_const! hygiene: user type alias {ty}", False, body2))
+    # ---------- collect_const! over an open range `a..` cut by take(n), up to the last value before the type's maximum
+    # (round 15: RangeFromIter::next refused to yield T::MAX; konst's take pulls one more element than it yields, so
+    # `250u8.., take(5)` already pulls 255). Chains that would need the element *after* T::MAX are left out (overflow in std).
+    for ty, mx in [("u8", 255), ("i8", 127), ("u16", 65535)]:
+        for start in [mx - 6, mx - 3, mx - 1, mx]:
+            for n in range(0, mx - start + 1):
+                exp = list(range(start, start + n))
+                for chain, e in [(f"take({n})", exp), (f"take({n}), map(|x| x)", exp), (f"enumerate(), take({n}), map(|(_, x)| x)", exp)]:
+                    body = [f"const K: &[{ty}] = &konst::iter::collect_const!({ty} => {start}{ty}.., {chain});",
+                            f"out.push(({e3_js('collect_const!(' + ty + ' => ' + str(start) + ty + '.., ' + chain + ')')}.to_string(), format!(\"{{:?}}\", K), format!(\"{{:?}}\", ({start}{ty}..).take({n}).collect::<Vec<_>>())));"]
+                    P.append((f"collect_const!({ty} => {start}{ty}.., {chain})", False, body))
     # ---------- collect_const! with hostile closures: must be rejected, or yield only produced values
     for n in range(0, maxn + 1):
         vals = ", ".join(str(i + 1) for i in range(n))
@@ -236,7 +247,7 @@ def run(tier, seed, drv):
     rep["evaluations"] = evals + len(rejected)
     rep["distinct_nontrivial"] = sum(1 for h in hostile.values() if h)
     rep["rule"] = "program = one array macro invocation (map!, map_!, from_fn!, from_fn_!, collect_const!) x length x parameter form x closure behaviour (well-behaved, or an early exit - break, continue, return, ?, labelled break/continue to an enclosing loop, panic! - at element k for every k); each sits in its own function returning Result so that non-local exits have somewhere legal to go; outcome classes: rejected by rustc | panics | does not terminate (5000-entry guard) | leaves the function/labelled block | yields an array; well-behaved programs must yield std's array, hostile ones must not yield an array at all (collect_const!: only produced values); non-trivial = hostile programs"
-    rep["bounds"] = f"lengths 0..={dict(quick=3, thorough=4)[tier]}; element types u8, (u8,u16), &str, String; forms |x|, |x: T|, |x| -> T, |ref x|, |(a,b)|, function path, typed from_fn; {len(allp)} programs; collect_const! = Iterator::collect on {len(dchains)} adapter chains (all chains of <= 2 direction-sensitive adapters and every {dict(quick=3, thorough=4)[tier]}-chain over rev/zip/flat_map/take/enumerate/skip containing rev(), sources slice / a..b / a..=b) x {len(gen_c10.CONST_INPUTS)} const inputs, evaluated by rustc's const evaluator"
+    rep["bounds"] = f"lengths 0..={dict(quick=3, thorough=4)[tier]}; element types u8, (u8,u16), &str, String; forms |x|, |x: T|, |x| -> T, |ref x|, |(a,b)|, function path, typed from_fn; {len(allp)} programs; collect_const! = Iterator::collect on {len(dchains)} adapter chains (all chains of <= 2 direction-sensitive adapters and every {dict(quick=3, thorough=4)[tier]}-chain over rev/zip/flat_map/take/enumerate/skip containing rev(), sources slice / a..b / a..=b) plus open ranges a.. of u8/i8/u16 starting 0..6 below the maximum cut by take(n) up to the maximum x {len(gen_c10.CONST_INPUTS)} const inputs, evaluated by rustc's const evaluator"
     rep["samples"] = [names[0], names[len(names) // 3], names[len(names) // 2], names[len(names) - 1]]
     rep["extra"] = {"collect_const_chain_items": citems, "collect_const_f7_shaped_known": cknown, "programs": len(allp), "rejected_by_rustc": len(rejected), "hostile_rejected_by_rustc": rej_hostile, "disagreements_checked": len(viol)}
     return rep
